@@ -13,12 +13,18 @@
   UBJSON ENCODER (namespace `SF.PropsUbj.C16`): the same theorem for every stream of basic
   AND extended events, every start state and every fault index: success ⇔ no Write failed, at
   most one Write ever fails, and the failing event is the one that returns the error.
+
+  JSON ENCODER (namespace `SF.PropsJson.C16`): the JSON visitor has errors of its own (an
+  unsupported float, a misplaced end event), so the statement has four parts; the plain
+  "success ⇔ no Write failed" holds for every stream the same visitor accepts over a healthy
+  writer, in particular for every supported document from any state.
 -/
 import SF.Cbor.Enc
 import SF.Proofs.CborFault
 import SF.Proofs.CborNoPanic
 import SF.Proofs.CborFailAt
 import SF.Proofs.UbjEncTop
+import SF.Proofs.JsonEncTop
 namespace SF.Props.C16
 open SF SF.Cbor SF.Cbor.Enc
 
@@ -253,3 +259,30 @@ theorem ubj_clean_init (k : Option Nat) : Clean (newVisitor k).w := SF.Props.Ubj
 example : (run (newVisitor (some 4)) [.ev .null, .numArr .i16 [-200, 5]]).2 = some 1 := by decide +kernel
 
 end SF.PropsUbj.C16
+
+/-! ## JSON encoder (SF/Json/Enc.lean; proofs SF/Proofs/JsonEnc*.lean) -/
+
+namespace SF.PropsJson.C16
+open SF SF.Json SF.Json.Enc SF.Json.Float ETree
+open SF.Props.JsonEnc
+
+/-- C16 for the JSON encoder, every stream × every state × every fault index: success implies
+no Write failed; a failed Write implies an error is reported; an error index is reported iff the
+result is not ok; and when no event has an error of its own (unsupported float), an error is
+reported IFF a Write failed -/
+theorem json_encoder_reports_write_errors (xs : List XEv) (s : Enc) (h : Clean s.w) :
+    ((run s xs).2.2 = .ok → Clean (run s xs).1.w) ∧
+    (¬ Clean (run s xs).1.w → (run s xs).2.2 = .err) ∧
+    ((run s xs).2.1 = none ↔ (run s xs).2.2 = .ok) ∧
+    ((∀ e ∈ expandAll xs, ownError s.ignoreInvalidFloat e = false) →
+      ((run s xs).2.2 = .err ↔ ¬ Clean (run s xs).1.w)) :=
+  SF.Props.JsonEnc.json_encoder_reports_write_errors xs s h
+
+/-- … and for every stream the same visitor accepts over a healthy writer: success ⇔ no Write
+failed, whatever the fault index -/
+theorem json_encoder_success_iff_no_write_failed (xs : List XEv) (s : Enc) (h : Clean s.w)
+    (w' : Writer) (hw : w'.failFrom = none) (hok : (run { s with w := w' } xs).2.2 = .ok) :
+    ((run s xs).2.2 = .ok ↔ Clean (run s xs).1.w) :=
+  SF.Props.JsonEnc.json_encoder_success_iff_no_write_failed xs s h w' hw hok
+
+end SF.PropsJson.C16
